@@ -25,7 +25,9 @@ Results other than `ok`:
                   is a theorem: 1 = assignment to an attribute through a union receiver is checked against the
                   *union* of the declared attribute types; 2 = a loop body is re-checked at most 4 times, the
                   binder state after the 4th pass is used whether or not it is a fixpoint; 3 = isinstance on a
-                  union drops an item unrelated to the tested class although the program has a common subclass
+                  union drops an item unrelated to the tested class although the program has a common subclass; 4 = a frame
+                  merge keeps the enclosing type because no option is flagged `from_assignment`, although one of them
+                  carries a type outside it (a narrowing after an assignment, captured at a break/continue)
   `stuck k`       a defensive check failed (a merged type is not above a branch type, a declaration meets an
                   already narrowed local); never observed — it keeps the proof independent of binder invariants
   `fuel`          recursion budget exhausted
@@ -191,7 +193,9 @@ def mergeVar (P : Prog) (decl : List Ty) (cur : Env) (bs : List Env) (allReach :
   if bs.any (fun b => (lookup x b).isNone) then
     do req below (.stuck 1); pure (curV, false)
   else if allReach && bs.all (fun b => match lookup x b with | some (_, fl) => !fl | none => true) then
-    do req below (.stuck 2); pure (curV, false)
+    -- `update_from_options` keeps the enclosing type when no option records an assignment; a narrowing put on top
+    -- of an assignment in the snapshot taken at a break/continue hides the assignment (F-C01-4)
+    do req below (.hole 4); pure (curV, false)
   else
     let U := unionTys P (bs.map fun b => effTy decl b x)
     match curV with
